@@ -38,8 +38,9 @@ class ToyModel(ForwardModel):
     """y(x) = sum_k p_k * x**k  on a fixed native grid; parameters, modes,
     default-fit flags, bounds and derived parameters come from config."""
 
-    def __init__(self, params, derived, ngrid=12):
+    def __init__(self, params, derived, ngrid=12, invalid_above=None):
         super().__init__('ToyModel')
+        self._invalid_above = invalid_above
         self._values = {}
         self._order = []
         for p in params:
@@ -66,6 +67,10 @@ class ToyModel(ForwardModel):
 
     def model(self, wngrid=None, cutoff_grid=True):
         self.n_model_calls += 1
+        if self._invalid_above is not None and \
+                sum(self._values.values()) > self._invalid_above:
+            from taurex.exceptions import InvalidModelException
+            raise InvalidModelException('toy: parameter sum above limit')
         x = self._x
         y = np.zeros_like(x)
         for k, n in enumerate(self._order):
@@ -127,7 +132,8 @@ class ToyObs(BaseSpectrum):
 
 def build_toy(cfg):
     """cfg: {'mparams','mderived','oparams','oderived','ngrid'} -> model, obs"""
-    model = ToyModel(cfg['mparams'], cfg['mderived'], cfg.get('ngrid', 12))
+    model = ToyModel(cfg['mparams'], cfg['mderived'], cfg.get('ngrid', 12),
+                     cfg.get('invalid_above'))
     x = model._x
     if 'obs_y' in cfg:
         y = np.asarray(cfg['obs_y'], dtype=float)
